@@ -10,13 +10,14 @@ pub mod io;
 pub mod mmap;
 pub mod rng;
 pub mod sched;
+mod sync_mutex;
 
 /// Scheduled replacements for `std::sync` used by the H3 hook.
 pub mod sync {
+    pub use crate::sync_mutex::{Condvar, Mutex, MutexGuard};
     pub use shuttle::sync::{
-        Barrier, BarrierWaitResult, Condvar, LockResult, Mutex, MutexGuard, Once, OnceState,
-        PoisonError, RwLock, RwLockReadGuard, RwLockWriteGuard, TryLockError, TryLockResult,
-        WaitTimeoutResult,
+        Barrier, BarrierWaitResult, LockResult, Once, OnceState, PoisonError, RwLock,
+        RwLockReadGuard, RwLockWriteGuard, TryLockError, TryLockResult, WaitTimeoutResult,
     };
     pub use std::sync::{Arc, Weak};
     pub mod atomic {
